@@ -145,6 +145,9 @@ theorem inv6_step {s s' : State} {t : Tid} (inv : Inv6 s)
 theorem seg_setPc {s : State} {t : Tid} {p : PC} {x a b : Mod} : Seg (setPc s t p) x a b ↔ Seg s x a b :=
   Seg.congr (s := s) (s' := setPc s t p) rfl rfl
 
+theorem seg_goSleep {s : State} {t : Tid} {d x a b : Mod} : Seg (goSleep s t d) x a b ↔ Seg s x a b :=
+  Seg.congr (s := s) (s' := goSleep s t d) rfl rfl
+
 theorem waiting_ptr {s : State} (inv3 : Inv3 s) {t : Tid} {f : Frame} {rest : List Frame} {d : Mod}
     (hs : s.stack t = f :: rest) (hw : waitingPc (s.pc t) = some d) : s.loading f.mod = some d := by
   have hc := inv3.chain t f rest hs
@@ -222,14 +225,23 @@ theorem inv6_fstep {P : Project} {s s' : State} {t : Tid} (inv2 : Inv2 s) (inv3 
       · obtain ⟨c0, hc0, _⟩ := inv.walk_on t f rest d none hs hpc (seg_setPc.1 hseg)
         cases hc0
   case wlockSleep d hpc hl =>
-    refine inv6_step inv (fun t1 h => by simp [setPc]) (fun t1 h => by simp [setPc, upd, h]) (keepEq rfl rfl) ?_ ?_ ?_
-    · intro f rest d' cur hs hp; simp [setPc] at hp
-    · intro f rest cur hs hp; simp [setPc] at hp
+    refine inv6_step inv (fun t1 h => by simp [goSleep]) (fun t1 h => by simp [goSleep, upd, h]) (keepEq rfl rfl) ?_ ?_ ?_
+    · intro f rest d' cur hs hp; simp [goSleep] at hp
+    · intro f rest cur hs hp; simp [goSleep] at hp
     · intro f rest d' hs hp
-      simp only [setPc, upd_same, PC.sleep.injEq, reduceCtorEq, false_or] at hs hp
+      simp only [goSleep, upd_same, PC.sleep.injEq, reduceCtorEq, false_or] at hs hp
       subst hp
       have := inv.wait_safe t f rest d hs (Or.inl hpc)
-      exact ⟨this.1, fun h => this.2 (seg_setPc.1 h)⟩
+      exact ⟨this.1, fun h => this.2 (seg_goSleep.1 h)⟩
+  case wakeAgain d hpc hna hl =>
+    refine inv6_step inv (fun t1 h => by simp [goSleep]) (fun t1 h => by simp [goSleep, upd, h]) (keepEq rfl rfl) ?_ ?_ ?_
+    · intro f rest d' cur hs hp; simp [goSleep] at hp
+    · intro f rest cur hs hp; simp [goSleep] at hp
+    · intro f rest d' hs hp
+      simp only [goSleep, upd_same, PC.sleep.injEq, reduceCtorEq, false_or] at hs hp
+      subst hp
+      have := inv.wait_safe t f rest d hs (Or.inr hpc)
+      exact ⟨this.1, fun h => this.2 (seg_goSleep.1 h)⟩
   case runBroken f rest hpc hst hb =>
     refine inv6_step inv (fun t1 h => by simp [setPc]) (fun t1 h => by simp [setPc, upd, h]) (keepEq rfl rfl) ?_ ?_ ?_
     all_goals (intros; simp_all [setPc])
@@ -260,7 +272,7 @@ theorem inv6_fstep {P : Project} {s s' : State} {t : Tid} (inv2 : Inv2 s) (inv3 
   case wlockRet d hpc hl =>
     refine inv6_step inv (fun t1 h => by simp [setPc]) (fun t1 h => by simp [setPc, upd, h]) (keepEq rfl rfl) ?_ ?_ ?_
     all_goals (intros; simp_all [setPc])
-  case wake d hpc hl =>
+  case wake d hpc hna hl =>
     refine inv6_step inv (fun t1 h => by simp [setPc]) (fun t1 h => by simp [setPc, upd, h]) (keepEq rfl rfl) ?_ ?_ ?_
     all_goals (intros; simp_all [setPc])
   case unsetRoot r hpc hst =>
